@@ -183,10 +183,17 @@ def compose(tbl, tier, seed):
                                 for _ in range(12 if quick else 60)]
         for v in vecs:
             for typ in (0, 1):
-                lines.append(_line("applym", str(typ), p, 0, (), v, (), ()))
-                if p <= 3:
-                    lines.append(_line("applym", str(typ), p, 1, (), v, (),
-                                       ()))
+                unscaled = not any(v)
+                for rev in ((), (1,)):
+                    if rev and not unscaled:
+                        continue
+                    for rep in range(6 if unscaled else 1):
+                        lines.append(_line("applym", str(typ), p, 0, rev, v,
+                                           (), ()))
+                        if p <= 2:
+                            for rep2 in range(1 if unscaled else 6):
+                                lines.append(_line("applym", str(typ), p, 1,
+                                                   rev, v, (), ()))
     return lines
 
 
@@ -313,12 +320,15 @@ def _tally(path, stats):
             stats["by_kind"][k] = stats["by_kind"].get(k, 0) + 1
             if ev.get("qual") == 0:
                 stats["unqualified"] = stats.get("unqualified", 0) + 1
-            if (k == "ApplyM" and ev.get("det") == "over" and
-                    any(ev.get("sc", [])) and ev.get("setup") == 1):
-                stats["over_scaled"] = stats.get("over_scaled", 0) + 1
+            if k == "ApplyM" and any(ev.get("sc", [])):
+                key = "applym_scaled_%s_%s" % (ev.get("type"), ev.get("det"))
+                stats[key] = stats.get(key, 0) + 1
                 if ev.get("res") != 1:
-                    stats["over_scaled_inaccurate"] = \
-                        stats.get("over_scaled_inaccurate", 0) + 1
+                    stats[key + "_inaccurate"] = \
+                        stats.get(key + "_inaccurate", 0) + 1
+            if k == "Solve" and ev.get("ok") == 1 and ev.get("rec") == 0:
+                stats["solve_dup_undetected"] = \
+                    stats.get("solve_dup_undetected", 0) + 1
 
 
 def run(ctx, exe, tier, seed, tbl=None, lines=None):
